@@ -147,15 +147,18 @@ def run_shards(outdir, shards, jobs=12):
     while pending or running:
         while pending and len(running) < jobs:
             s = pending.pop(0)
+            # stdout goes to a file: a pipe that is only read after exit blocks coqc once `Print M` exceeds 64 KB
+            fo = open(os.path.join(outdir, s + ".out"), "w")
             p = subprocess.Popen(["timeout", "1700", "coqc", "-noglob"] + COQFLAGS + [s], cwd=outdir,
-                                 stdout=subprocess.PIPE, stderr=subprocess.STDOUT, text=True, env=env)
+                                 stdout=fo, stderr=subprocess.STDOUT, text=True, env=env)
+            fo.close()
             running.append((s, p))
         still = []
         for s, p in running:
             if p.poll() is None:
                 still.append((s, p))
             else:
-                results[s] = (p.returncode, p.stdout.read())
+                results[s] = (p.returncode, open(os.path.join(outdir, s + ".out")).read())
         running = still
         if running:
             time.sleep(0.05)
